@@ -271,6 +271,7 @@ C11_SameBytes_C == \A i \in DPost.items : i.key \in DOMAIN hp.keysha => hp.keysh
 C01_SameItemsSameView_A == Acting /\ HasObs(Post) /\ ~Damaged /\ Quiescent(Post, DPost)
 C01_SameItemsSameView_C == \A p \in hp.seen : p[1] = DPost.valid => p[2] = DPost.view
 C01_SyncReaches_A == Op("Synced") /\ HasObs(Post) /\ ~Damaged /\ HasObs(ob[E.x.peer]) /\ E.x.peer \notin h.damaged
+                       /\ ~Post.staging /\ ~ob[E.x.peer].staging   \* refresh refuses to run on staged changes (C15)
 C01_SyncReaches_C ==
     /\ der[E.x.peer].valid = DPost.valid
     /\ der[E.x.peer].view = DPost.view
@@ -285,7 +286,8 @@ C03_Durable_C ==
     /\ (DPost.applied = DPost.ccn =>
            /\ View(f) = View(Post)
            /\ Rng(f.heads) = Rng(Post.heads)
-           /\ f.deltas = Post.deltas
+           /\ AppliedNames(f) = DPost.applied
+           /\ \A k \in DPost.applied : f.deltas[k] = Post.deltas[k]   \* the commit graph (held-back blocks may be known to one side only)
            /\ f.doc = Post.doc)
 
 (* C04 — reading returns the document last submitted *)
@@ -326,7 +328,7 @@ C06_ArrayView_C ==
              w == Post.orders[OKey(a, Post.winner[a])].seq
              ll == Core!LiveLeaves(Tree(Post, a))
          IN
-         /\ \A s \in lo : \A x \in Rng(s) : Alive(Post, x) => x \in ShownIn(doc)     \* (iii) no loss
+         /\ \A s \in lo : \A x \in Rng(s) : Alive(Post, x) => x \in DOMAIN doc.objs   \* (iii) no loss: shown in some array or directly under a flattened key
          /\ \A x \in Rng(doc.arrays[a]) : \E s \in lo : x \in Rng(s)                 \* (iv) no invention
          /\ Sub(doc.arrays[a], Rng(w)) = Sub(w, Rng(doc.arrays[a]))        \* (v) winner's order kept
          /\ (Cardinality(ll) = 2 =>
